@@ -12,6 +12,8 @@ pub const PANIC_CODE: u32 = 0xDEAD;
 pub use vcommon::tapdefs::{Snap, TapEvent};
 
 static EVENTS: Mutex<Vec<TapEvent>> = Mutex::new(Vec::new());
+/// filled by the process panic hook (main.rs): message and first frame inside the program
+pub static LAST_PANIC: Mutex<Option<String>> = Mutex::new(None);
 
 pub fn drain() -> Vec<TapEvent> {
     std::mem::take(&mut *EVENTS.lock().unwrap())
@@ -46,6 +48,7 @@ pub fn marginfi_entry(pid: &Pubkey, accounts: &[AccountInfo], data: &[u8]) -> Pr
         // on chain a panic aborts the transaction; keep that and tag it
         Err(_) => (Err(ProgramError::Custom(PANIC_CODE)), true),
     };
+    let panic_site = if panicked { LAST_PANIC.lock().unwrap().take() } else { None };
     let post = snap(accounts);
     EVENTS.lock().unwrap().push(TapEvent {
         program: pid,
@@ -55,6 +58,7 @@ pub fn marginfi_entry(pid: &Pubkey, accounts: &[AccountInfo], data: &[u8]) -> Pr
         stack_height,
         result: result.clone(),
         panicked,
+        panic_site,
     });
     result
 }
